@@ -120,6 +120,65 @@ func (p *poison) heal() {
 	}
 }
 
+// injectFault arms the fault of one batch.
+func injectFault(s *ctlsim.Sim, f C12Fault, active **poison) {
+	switch f.Kind {
+	case "file":
+		cands := c12Candidates(s)
+		*active = poisonFile(s, cands[f.Pick%len(cands)])
+	case "cmd":
+		s.Hap.SetFaults(map[int]string{f.Pick: f.Mode}, nil)
+	case "reload":
+		s.Hap.SetFaults(nil, map[int]string{1: f.Mode})
+	default:
+		s.Hap.SetFaults(nil, nil)
+	}
+}
+
+// retryAfterFault plays the controller's own retry (the same request again, with no new
+// event) until an attempt succeeds; the fault persists for f.Repeat retries and is then
+// removed. Returns all the steps, the number of retries and whether the last one still failed.
+func retryAfterFault(s *ctlsim.Sim, infos []ctlsim.StepInfo, f C12Fault, active **poison) ([]ctlsim.StepInfo, int, bool) {
+	failed := false
+	for _, in := range infos {
+		if in.Err != nil {
+			failed = true
+		}
+	}
+	attempts := 0
+	for failed && attempts < 6 {
+		attempts++
+		if attempts > f.Repeat {
+			// the transient failure is over
+			if *active != nil {
+				(*active).heal()
+				*active = nil
+			}
+			s.Hap.SetFaults(nil, nil)
+		} else if f.Kind == "reload" {
+			s.Hap.SetFaults(nil, map[int]string{1: f.Mode})
+		} else if f.Kind == "cmd" {
+			s.Hap.SetFaults(map[int]string{f.Pick: f.Mode}, nil)
+		}
+		last := infos[len(infos)-1]
+		s.EnqueueRetry(last.FullReq)
+		retry := s.Reconcile()
+		failed = false
+		for _, in := range retry {
+			if in.Err != nil {
+				failed = true
+			}
+		}
+		infos = append(infos, retry...)
+	}
+	if *active != nil {
+		(*active).heal()
+		*active = nil
+	}
+	s.Hap.SetFaults(nil, nil)
+	return infos, attempts, failed
+}
+
 func execC12(c C12Case) *Failure {
 	st := getStats("C12")
 	triggered, triggeredOnChange := 0, 0
@@ -132,64 +191,19 @@ func execC12(c C12Case) *Failure {
 		if batch < len(c.Faults) {
 			curFault = c.Faults[batch]
 		}
-		switch curFault.Kind {
-		case "file":
-			cands := c12Candidates(s)
-			active = poisonFile(s, cands[curFault.Pick%len(cands)])
-		case "cmd":
-			s.Hap.SetFaults(map[int]string{curFault.Pick: curFault.Mode}, nil)
-		case "reload":
-			s.Hap.SetFaults(nil, map[int]string{1: curFault.Mode})
-		default:
-			s.Hap.SetFaults(nil, nil)
-		}
+		injectFault(s, curFault, &active)
 	}, func(s *ctlsim.Sim, batch int, infos []ctlsim.StepInfo) *Failure {
-		steps += len(infos)
 		if batch < 0 {
+			steps += len(infos)
 			if err := stepErrors(infos); err != nil {
 				return failf("C12:update-error", "bootstrap failed without a fault: %v", err)
 			}
 			return nil
 		}
-		failed := false
-		for _, in := range infos {
-			if in.Err != nil {
-				failed = true
-			}
-		}
-		// the controller's own retry: the same request again, with no new event
-		attempts := 0
-		for failed && attempts < 6 {
-			attempts++
-			if attempts > curFault.Repeat {
-				// the transient failure is over
-				if active != nil {
-					active.heal()
-					active = nil
-				}
-				s.Hap.SetFaults(nil, nil)
-			} else if curFault.Kind == "reload" {
-				s.Hap.SetFaults(nil, map[int]string{1: curFault.Mode})
-			} else if curFault.Kind == "cmd" {
-				s.Hap.SetFaults(map[int]string{curFault.Pick: curFault.Mode}, nil)
-			}
-			last := infos[len(infos)-1]
-			s.EnqueueRetry(last.FullReq)
-			retry := s.Reconcile()
-			steps += len(retry)
-			failed = false
-			for _, in := range retry {
-				if in.Err != nil {
-					failed = true
-				}
-			}
-			infos = append(infos, retry...)
-		}
-		if active != nil {
-			active.heal()
-			active = nil
-		}
-		s.Hap.SetFaults(nil, nil)
+		var attempts int
+		var failed bool
+		infos, attempts, failed = retryAfterFault(s, infos, curFault, &active)
+		steps += len(infos)
 		if attempts > 0 {
 			triggered++
 			kindsHit[curFault.Kind] = true
@@ -219,6 +233,12 @@ func execC12(c C12Case) *Failure {
 			if attempts > 0 {
 				f.Signature = "C12:files-not-converged:" + curFault.Kind
 			}
+			f.Msg = fmt.Sprintf("%s: %s\nlog of the last step:\n  %s\nhistory:\n%s", what, f.Msg, strings.Join(infos[len(infos)-1].Logs, "\n  "), describeBatches(c.Hist))
+			return f
+		}
+		// ... and the files hold exactly the state: nothing of a removed object is left in a file HAProxy loads
+		if f := c05Compare(s); f != nil && attempts > 0 {
+			f.Signature = "C12:files-not-exact:" + curFault.Kind + ":" + strings.TrimPrefix(f.Signature, "C05:")
 			f.Msg = fmt.Sprintf("%s: %s\nlog of the last step:\n  %s\nhistory:\n%s", what, f.Msg, strings.Join(infos[len(infos)-1].Logs, "\n  "), describeBatches(c.Hist))
 			return f
 		}
